@@ -216,7 +216,7 @@ Proof.
         rewrite (fold_set_nth d); auto.
         - destruct (find_term i (d_terms d)); [reflexivity|]. apply nth_error_repeat_lt. lia.
         - eapply Forall_impl; [|exact Hle]. intros t Ht. rewrite repeat_length. cbn beta in Ht. lia. }
-      f_equal. unfold mk_poly. cbn [s_n s_struct s_density s_repr s_prec]. rewrite Hb, Harr.
+      f_equal. unfold mk_poly. cbn [s_n s_struct s_density s_repr s_prec]. cbv iota. rewrite Harr.
       unfold arr_spar, arr_coeffs. rewrite !map_map.
       f_equal; apply map_ext; intro i; destruct (find_term i (d_terms d)); reflexivity.
     + apply repeat_length.
@@ -229,7 +229,177 @@ Proof.
     change (concat (map (term_tokens d false) (d_terms d))) with (concat (map (value_tokens d) (d_terms d))).
     rewrite <- (app_nil_r (concat (map (value_tokens d) (d_terms d)))), <- Hlen.
     rewrite (read_dense_ok d Hleg Hex) by exact Hterms.
-    f_equal. unfold mk_poly. cbn [s_n s_struct s_density s_repr s_prec]. rewrite Hb.
+    f_equal. unfold mk_poly. cbn [s_n s_struct s_density s_repr s_prec]. cbv iota.
     rewrite map_const_repeat, Hlen.
     f_equal. rewrite <- Hlen. symmetry. apply find_seq. rewrite Hk, Hlen. reflexivity.
+Qed.
+
+(* ---- no rendered line contains a newline *)
+
+Lemma nonspace_no_nl c : is_space c = false -> (c =c? ch_nl) = false.
+Proof. intro H. destruct (c =c? ch_nl) eqn:E; auto. apply Ascii.eqb_eq in E. subst. discriminate. Qed.
+
+Lemma no_nl_spaces n : no_nl (spaces n).
+Proof. apply has_char_spaces. reflexivity. Qed.
+
+Lemma no_nl_clean b : no_nl (clean b).
+Proof.
+  unfold no_nl, clean. induction b as [|c b IH]; [reflexivity|]. cbn [filter].
+  destruct (c =c? ch_nl) eqn:E; cbn [orb negb]; [exact IH|].
+  destruct (c =c? "000"); cbn [negb]; [exact IH|]. cbn [has_char existsb]. rewrite E. exact IH.
+Qed.
+
+Lemma no_nl_app2 a b : no_nl a -> no_nl b -> no_nl (a ++ b).
+Proof. unfold no_nl. intros. rewrite has_char_app, H, H0. reflexivity. Qed.
+
+Lemma no_nl_cons c l : (c =c? ch_nl) = false -> no_nl l -> no_nl (c :: l).
+Proof. unfold no_nl. intros. cbn [has_char existsb]. rewrite H. exact H0. Qed.
+
+Lemma no_nl_comment_tail c : no_nl (comment_tail c).
+Proof. destruct c; [apply no_nl_cons; [reflexivity|apply no_nl_clean]|reflexivity]. Qed.
+
+Lemma no_nl_filler f : no_nl (filler_line f).
+Proof.
+  destruct f; cbn [filler_line]; [apply no_nl_spaces|].
+  apply no_nl_app2; [apply no_nl_spaces|apply no_nl_cons; [reflexivity|apply no_nl_clean]].
+Qed.
+
+Lemma no_nl_fillers F : Forall no_nl (map filler_line F).
+Proof. induction F; constructor; auto using no_nl_filler. Qed.
+
+Lemma no_nl_tchars t : Forall tchar_ok t -> no_nl t.
+Proof. induction 1 as [|c t [Hc _] _ IH]; [reflexivity|]. apply no_nl_cons; [apply nonspace_no_nl, Hc|exact IH]. Qed.
+
+Lemma no_nl_join toks : forall gaps, Forall tok_ok toks -> no_nl (join_tokens gaps toks).
+Proof.
+  induction toks as [|t r IH]; intros gaps H; [reflexivity|].
+  inversion H as [|? ? [_ Ht] Hr]; subst. destruct r as [|t' r'].
+  - cbn [join_tokens]. apply no_nl_tchars, Ht.
+  - assert (E : exists g gs, join_tokens gaps (t :: t' :: r') = t ++ spaces (S g) ++ join_tokens gs (t' :: r')).
+    { destruct gaps as [|g gs]; [exists 0%nat, [] | exists g, gs]; reflexivity. }
+    destruct E as [g [gs E]]. rewrite E.
+    apply no_nl_app2; [apply no_nl_tchars, Ht|apply no_nl_app2; [apply no_nl_spaces|apply IH, Hr]].
+Qed.
+
+Lemma no_nl_token_lines toks dc : Forall tok_ok toks -> Forall no_nl (token_lines toks dc).
+Proof.
+  intro H. unfold token_lines. apply Forall_app. split; [apply no_nl_fillers|].
+  constructor; [|constructor].
+  repeat apply no_nl_app2; auto using no_nl_spaces, no_nl_join, no_nl_comment_tail.
+Qed.
+
+Lemma no_nl_okc l : forallb okc l = true -> no_nl l.
+Proof.
+  induction l as [|c l IH]; intro H; [reflexivity|]. cbn [forallb] in H. apply andb_true_iff in H. destruct H as [H1 H2].
+  apply no_nl_cons; [apply nonspace_no_nl, (okc_facts c H1)|apply IH, H2].
+Qed.
+
+Lemma no_nl_opt_text o dc : opt_good o -> no_nl (opt_text o dc).
+Proof.
+  destruct o as [k|k v]; cbn [opt_good opt_text].
+  - intro H. destruct (keyword_okc k H) as (Hok & _ & _). apply no_nl_okc. rewrite okc_case. exact Hok.
+  - intros [Hk [Hv _]].
+    assert (Hok : forallb okc k = true) by (destruct Hk; subst k; reflexivity).
+    apply no_nl_app2; [apply no_nl_okc; rewrite okc_case; exact Hok|].
+    apply no_nl_app2; [apply no_nl_spaces|]. apply no_nl_cons; [reflexivity|].
+    apply no_nl_app2; [apply no_nl_spaces|apply no_nl_okc, digits_okc, Hv].
+Qed.
+
+Lemma no_nl_option_lines o dc : opt_good o -> Forall no_nl (option_lines o dc).
+Proof.
+  intro H. unfold option_lines. apply Forall_app. split.
+  - induction (od_pre dc); constructor; auto. apply no_nl_cons; [reflexivity|apply no_nl_clean].
+  - constructor; [|constructor].
+    apply no_nl_app2; [apply no_nl_spaces|]. apply no_nl_app2; [apply no_nl_opt_text, H|].
+    apply no_nl_app2; [apply no_nl_spaces|]. apply no_nl_cons; [reflexivity|].
+    apply no_nl_app2; [apply no_nl_spaces|apply no_nl_comment_tail].
+Qed.
+
+Lemma forall_zip_concat {A B} (f : A -> B -> list text) (P : A -> Prop) dflt l :
+  (forall x y, P x -> Forall no_nl (f x y)) -> Forall P l ->
+  forall ds, Forall no_nl (concat (zip_default f dflt l ds)).
+Proof.
+  intros Hf H. induction H as [|x l Hx _ IH]; intro ds; [constructor|].
+  destruct ds; cbn [zip_default concat]; apply Forall_app; split; auto.
+Qed.
+
+(* ---- assembly *)
+
+Lemma skipws_prefix ws l r : Forall (fun x => blank x = true) ws -> blank l = false ->
+  skipws (ws ++ l :: r) = ltrim l :: r.
+Proof. intros H Hl. induction H as [|x ws Hx _ IH]; cbn [app skipws]; [rewrite Hl|rewrite Hx]; auto. Qed.
+
+Lemma has_semicolon_not_blank l : has_char ";" l = true -> blank l = false.
+Proof. intro H. destruct (blank l) eqn:E; auto. destruct (blank_no_tokens l E) as [_ N]. congruence. Qed.
+
+Lemma coeff_tokens_ok d : wf d -> d_legacy d = false -> d_kind d = KMonomial -> exact_type d ->
+  Forall tok_ok (coeff_tokens d).
+Proof.
+  intros (_ & Hterms & _) Hleg Hkind Hex. unfold coeff_tokens. rewrite Hkind.
+  induction Hterms as [|t ts Ht _ IH]; [constructor|].
+  cbn [map concat]. apply Forall_app. split; [|exact IH].
+  unfold term_tokens. apply Forall_app. split.
+  - destruct (d_sparse d); [constructor; [apply nat_token_ok|constructor]|constructor].
+  - apply (value_tokens_ok d Hleg Hex t Ht).
+Qed.
+
+Theorem parse_render_monomial_exact st pi d :
+  wf d -> d_legacy d = false -> d_kind d = KMonomial -> exact_type d ->
+  parse (render st pi d) = Poly (denote d).
+Proof.
+  intros Hwf Hleg Hkind Hex.
+  pose proof (coeff_tokens_ok d Hwf Hleg Hkind Hex) as Htoks.
+  pose proof (options_good st d) as Hgood.
+  assert (Hgoodp : Forall opt_good (permute pi (options_of st d))).
+  { eapply Permutation_Forall; [|exact Hgood]. symmetry. apply permute_perm. }
+  set (groups := group (st_chunks st) (coeff_tokens d)).
+  assert (Hg1 : Forall (Forall tok_ok) groups) by (apply group_forall, Htoks).
+  assert (Hg2 : Forall (fun g => g <> []) groups) by apply group_nonempty.
+  unfold parse, render.
+  assert (RL : render_lines st pi d =
+               map filler_line (st_header st)
+               ++ (concat (zip_default option_lines default_optdeco (permute pi (options_of st d)) (st_opts st))
+                   ++ map filler_line (st_sep st))
+               ++ concat (zip_default token_lines default_linedeco groups (st_lines st))
+               ++ map filler_line (st_trailer st)).
+  { unfold render_lines. rewrite Hleg. reflexivity. }
+  rewrite RL. clear RL.
+  rewrite parse_lines.
+  2:{ repeat (apply Forall_app; split); try apply no_nl_fillers.
+      - apply (forall_zip_concat option_lines opt_good); auto using no_nl_option_lines.
+      - apply (forall_zip_concat token_lines (Forall tok_ok)); auto using no_nl_token_lines. }
+  rewrite !effective_lines_app, eff_option_section by exact Hgoodp.
+  set (OL := zip_default stripped default_optdeco (permute pi (options_of st d)) (st_opts st)).
+  set (REST := effective_lines (map filler_line (st_sep st))
+               ++ effective_lines (concat (zip_default token_lines default_linedeco groups (st_lines st)))
+               ++ effective_lines (map filler_line (st_trailer st))).
+  destruct (eff_token_section groups (st_lines st) Hg1 Hg2) as [TK NS].
+  assert (HREST : Forall (fun l => has_char ";" l = false) REST).
+  { unfold REST. repeat (apply Forall_app; split); auto;
+      (eapply Forall_impl; [|apply eff_fillers]); intros l Hl; apply (blank_no_tokens l Hl). }
+  assert (HTOK : all_tokens REST = coeff_tokens d).
+  { unfold REST. rewrite !all_tokens_app, TK, !(all_tokens_blank _ (eff_fillers _)).
+    unfold groups. rewrite group_concat, app_nil_r. reflexivity. }
+  assert (HOL : exists o1 OL', OL = o1 :: OL' /\ has_char ";" o1 = true).
+  { unfold OL. pose proof (Permutation_length (permute_perm pi (options_of st d))) as PL.
+    destruct (permute pi (options_of st d)) as [|o os] eqn:EP.
+    - unfold options_of in PL. destruct (st_explicit st) as [[[? ?] ?] ?]. cbn in PL. lia.
+    - destruct (st_opts st); cbn [zip_default]; eexists; eexists; (split; [reflexivity|apply stripped_has_semicolon]). }
+  destruct HOL as (o1 & OL' & EOL & Hsemi).
+  replace (effective_lines (map filler_line (st_header st)) ++ (OL ++ effective_lines (map filler_line (st_sep st)))
+           ++ effective_lines (concat (zip_default token_lines default_linedeco groups (st_lines st)))
+           ++ effective_lines (map filler_line (st_trailer st)))
+    with (effective_lines (map filler_line (st_header st)) ++ o1 :: (OL' ++ REST))
+    by (rewrite EOL; unfold REST; rewrite <- !app_assoc; reflexivity).
+  rewrite skipws_prefix by (apply eff_fillers || apply has_semicolon_not_blank, Hsemi).
+  rewrite has_char_ltrim, Hsemi.
+  unfold parse_v3. rewrite options_phase_ltrim by exact Hsemi.
+  change (o1 :: OL' ++ REST) with ((o1 :: OL') ++ REST). rewrite <- EOL. unfold OL.
+  destruct Hwf as (Hdeg & Hw).
+  rewrite options_phase_of_render by auto.
+  change (s_n (target_settings d)) with (Z.of_nat (d_degree d)).
+  change (s_repr (target_settings d)) with (d_kind d). rewrite Hkind.
+  destruct (Z.of_nat (d_degree d) =? -1)%Z eqn:E; [lia|].
+  rewrite HTOK.
+  apply read_monomial_ok; auto. split; auto.
 Qed.
